@@ -1,9 +1,10 @@
-(** Layout arithmetic on the fragment F1 ([CodeSem.in_f1]): every factor is
-    simple (no complex window), [act_design] lists some of the design factors
-    in design order, each once (the others, "implied", have no variables), all
-    sustain counts are 1 and all preambles 0.  Then the SAT-variable layout of
-    [Design/Layout.v] is the plain grid: the variable of (trial t, active
-    factor f, level l) is [t * vpt + off f + l + 1].  Proof file. *)
+(** Layout arithmetic on the fragment F1 ([CodeSem.in_f1]): [act_design] lists
+    some of the design factors in design order, each once (the others,
+    "implied", have no variables); a factor of [act_design] is simple /
+    WithinTrial (a grid factor: one variable per level and trial) or has a
+    complex window (Transition, Window: one variable per level and trial in
+    which it applies, numbered after the grid); all sustain counts are 1.
+    The variable of (trial t, factor f, level l) is [gvar fb t f l].  Proof file. *)
 From Coq Require Import ZArith List Bool Arith Lia ZifyBool.
 From SP Require Import Design.Flat Design.Layout Encode.Compile Encode.CodeSem.
 From SP Require Core.Card.
@@ -12,13 +13,29 @@ Close Scope Z_scope.
 Open Scope nat_scope.
 
 Definition nf (fb : flat) : nat := length (fl_design fb).
-(* levels that have variables: those of the factors of [act_design] *)
-Definition anl (fb : flat) (f : nat) : nat := if isact fb f then nlevels fb f else 0.
-(* sum of the level counts of the active factors before f *)
+(* grid factors / complex factors of [act_design] *)
+Definition sact (fb : flat) (f : nat) : bool := isact fb f && negb (is_complex fb f).
+Definition cact (fb : flat) (f : nat) : bool := isact fb f && is_complex fb f.
+(* levels that have grid variables: those of the grid factors *)
+Definition anl (fb : flat) (f : nat) : nat := if sact fb f then nlevels fb f else 0.
+(* sum of the level counts of the grid factors before f *)
 Definition off (fb : flat) (f : nat) : nat :=
   fold_left (fun acc g => acc + anl fb g) (seq 0 f) 0.
+(* does factor f have a level in (0-based) trial t; how many earlier trials does it have a level in *)
+Definition lappl (fb : flat) (f t : nat) : bool := applies_at fb f (S t).
+Definition prev (fb : flat) (f t : nat) : nat := previous_trials_count fb f (S t).
+Definition napp (fb : flat) (f : nat) : nat := prev fb f (T fb).
+(* variables of a complex factor, and the sum over the complex factors before f *)
+Definition cnl (fb : flat) (f : nat) : nat := if cact fb f then napp fb f * nlevels fb f else 0.
+Definition coff (fb : flat) (f : nat) : nat :=
+  fold_left (fun acc g => acc + cnl fb g) (seq 0 f) 0.
+(* number of grid variables, of all variables *)
+Definition GN (fb : flat) : nat := T fb * vpt fb.
+Definition VN (fb : flat) : nat := GN fb + coff fb (nf fb).
 (* SAT variable of (0-based trial t, factor f, level l) *)
-Definition gvar (fb : flat) (t f l : nat) : nat := t * vpt fb + off fb f + l + 1.
+Definition gvar (fb : flat) (t f l : nat) : nat :=
+  if is_complex fb f then GN fb + coff fb f + prev fb f t * nlevels fb f + l + 1
+  else t * vpt fb + off fb f + l + 1.
 
 (** * Generic list facts *)
 
@@ -110,8 +127,6 @@ Record F1facts (fb : flat) : Prop := {
   f1_sustains : forall n, In n (fl_sustains fb) -> n = 1;
   f1_sustains_len : length (fl_sustains fb) = length (fl_crossings fb);
   f1_sustain : forall f, sustain_of fb f = 1;
-  f1_align_pre : fl_alignment fb = PostPreamble -> fl_alignment_preamble fb = 0;
-  f1_preambles : forall n, In n (fl_preambles fb) -> n = 0;
   f1_crossings : crossings_f1 fb 0 (fl_crossings fb) = true;
   f1_nodup : forall c, In c (fl_crossings fb) -> list_nat_nodup c = true;
   f1_constraints : forall c, In c (fl_constraints fb) -> constraint_f1 fb c = true;
@@ -134,7 +149,7 @@ Lemma in_f1_facts : forall fb, in_f1 fb = true -> F1facts fb.
 Proof.
   intros fb H. unfold in_f1 in H.
   repeat rewrite andb_true_iff in H.
-  destruct H as [[[[[[[[[[[[[[H1 H2] [H3 H3b]] H4] H5] H6] H7] H8] H9] H10] H11] H12] H13] H14] H15].
+  destruct H as [[[[[[[[[[[[H1 H2] [H3 H3b]] H4] H5] H8] H9] H10] H11] H12] H13] H14] H15].
   assert (Hs : forall n, In n (fl_sustains fb) -> n = 1).
   { intros n Hn. rewrite forallb_forall in H4. apply Nat.eqb_eq. apply H4. exact Hn. }
   constructor.
@@ -152,8 +167,6 @@ Proof.
   - apply Nat.eqb_eq. exact H5.
   - intros f. unfold sustain_of. apply fold_overwrite_one; auto.
     intros p Hp. apply Hs. destruct p as [c s]. simpl. eapply in_combine_r. exact Hp.
-  - intros Ea. rewrite Ea in H6. apply Nat.eqb_eq. exact H6.
-  - intros n Hn. rewrite forallb_forall in H7. apply Nat.eqb_eq. apply H7. exact Hn.
   - exact H8.
   - intros c Hc. rewrite forallb_forall in H9. apply H9. exact Hc.
   - intros c Hc. rewrite forallb_forall in H10. apply H10. exact Hc.
@@ -188,11 +201,95 @@ Proof.
   intros fb f g H. rewrite <- off_S. apply off_le. lia.
 Qed.
 
-Lemma anl_act : forall fb f, isact fb f = true -> anl fb f = nlevels fb f.
+Lemma anl_act : forall fb f, sact fb f = true -> anl fb f = nlevels fb f.
 Proof. intros fb f H. unfold anl. rewrite H. reflexivity. Qed.
 
-Lemma anl_nact : forall fb f, isact fb f = false -> anl fb f = 0.
+Lemma anl_nact : forall fb f, sact fb f = false -> anl fb f = 0.
 Proof. intros fb f H. unfold anl. rewrite H. reflexivity. Qed.
+
+Lemma coff_0 : forall fb, coff fb 0 = 0.
+Proof. reflexivity. Qed.
+
+Lemma coff_S : forall fb f, coff fb (S f) = coff fb f + cnl fb f.
+Proof.
+  intros fb f. unfold coff. rewrite seq_S, fold_left_app. reflexivity.
+Qed.
+
+Lemma coff_le : forall fb f g, f <= g -> coff fb f <= coff fb g.
+Proof.
+  intros fb f g H. induction H as [|g H IH]; [lia|]. rewrite coff_S. lia.
+Qed.
+
+Lemma coff_mono : forall fb f g, f < g -> coff fb f + cnl fb f <= coff fb g.
+Proof.
+  intros fb f g H. rewrite <- coff_S. apply coff_le. lia.
+Qed.
+
+(** ** Trials in which a factor has a level *)
+Lemma prev_0 : forall fb f, prev fb f 0 = 0.
+Proof. reflexivity. Qed.
+
+Lemma prev_S : forall fb f t, prev fb f (S t) = prev fb f t + (if lappl fb f t then 1 else 0).
+Proof.
+  intros fb f t. unfold prev, previous_trials_count, lappl.
+  replace (S (S t) - 1) with (S t) by lia. replace (S t - 1) with t by lia.
+  rewrite seq_S, filter_app, app_length. cbn [filter Nat.add].
+  destruct (applies_at fb f (S t)); reflexivity.
+Qed.
+
+Lemma prev_le : forall fb f t, prev fb f t <= t.
+Proof.
+  intros fb f t. induction t as [|t IH]; [rewrite prev_0; lia|]. rewrite prev_S. destruct (lappl fb f t); lia.
+Qed.
+
+Lemma prev_mono : forall fb f t t', t <= t' -> prev fb f t <= prev fb f t'.
+Proof.
+  intros fb f t t' H. induction H as [|t' H IH]; [lia|]. rewrite prev_S. lia.
+Qed.
+
+Lemma prev_lt : forall fb f t t', t < t' -> lappl fb f t = true -> prev fb f t < prev fb f t'.
+Proof.
+  intros fb f t t' H Ha. pose proof (prev_mono fb f (S t) t' H) as M. rewrite prev_S, Ha in M. lia.
+Qed.
+
+Lemma in_trials_of : forall fb f a b t, In t (trials_of fb f a b) <-> a <= t < b /\ lappl fb f t = true.
+Proof.
+  intros fb f a b t. unfold trials_of, lappl. rewrite filter_In, in_seq. split; intros [H1 H2]; (split; [lia|exact H2]).
+Qed.
+
+(** the trials of [a, b) with a level are numbered consecutively by [prev] *)
+Lemma trials_of_prev : forall fb f a b, a <= b ->
+  map (prev fb f) (trials_of fb f a b) = seq (prev fb f a) (prev fb f b - prev fb f a).
+Proof.
+  intros fb f a b Hab. replace b with (a + (b - a)) by lia. generalize (b - a) as n. clear b Hab.
+  induction n as [|n IH].
+  - unfold trials_of. rewrite Nat.add_0_r, !Nat.sub_diag. reflexivity.
+  - unfold trials_of in *. replace (a + S n - a) with (S n) by lia. replace (a + n - a) with n in IH by lia.
+    rewrite seq_S, filter_app, map_app, IH. cbn [filter].
+    replace (a + S n) with (S (a + n)) by lia. rewrite prev_S. fold (lappl fb f (a + n)).
+    pose proof (prev_mono fb f a (a + n) ltac:(lia)) as M.
+    destruct (lappl fb f (a + n)); cbn [map].
+    + replace (prev fb f (a + n) + 1 - prev fb f a) with (S (prev fb f (a + n) - prev fb f a)) by lia.
+      rewrite seq_S. f_equal. f_equal. lia.
+    + rewrite app_nil_r. f_equal. lia.
+Qed.
+
+Lemma trials_of_length : forall fb f a b, a <= b ->
+  length (trials_of fb f a b) = prev fb f b - prev fb f a.
+Proof.
+  intros fb f a b Hab. rewrite <- (map_length (prev fb f)), (trials_of_prev fb f a b Hab). apply seq_length.
+Qed.
+
+(** every number below [prev f b] is the number of a trial with a level *)
+Lemma prev_hit : forall fb f b k, k < prev fb f b ->
+  exists t, t < b /\ lappl fb f t = true /\ prev fb f t = k.
+Proof.
+  intros fb f b. induction b as [|b IH]; intros k Hk; [rewrite prev_0 in Hk; lia|].
+  rewrite prev_S in Hk. destruct (Nat.lt_ge_cases k (prev fb f b)) as [C|C].
+  - destruct (IH k C) as (t & Ht & Ha & Ep). exists t. repeat split; auto.
+  - destruct (lappl fb f b) eqn:Ea; [|lia]. exists b. repeat split; auto. lia.
+Qed.
+
 
 (** every range of [map_block_trial_ranges] lies within the trials *)
 Lemma ranges_loop_bound : forall fb fuel start e step stop,
@@ -256,6 +353,115 @@ Proof.
   cbv zeta. cbn [seq map]. rewrite Nat.add_0_r. reflexivity.
 Qed.
 
+
+(** ** More generic facts *)
+Lemma filter_filter {A} (p q : A -> bool) : forall l,
+  filter p (filter q l) = filter (fun x => q x && p x) l.
+Proof.
+  induction l as [|x l IH]; simpl; auto.
+  destruct (q x); simpl; [destruct (p x); simpl; rewrite IH; reflexivity|exact IH].
+Qed.
+
+Lemma filter_leb_seq : forall s n a,
+  filter (fun t => s <=? t) (seq a n) = seq (Nat.max a s) (a + n - Nat.max a s).
+Proof.
+  intros s. induction n as [|n IH]; intros a.
+  - simpl. replace (a + 0 - Nat.max a s) with 0 by lia. reflexivity.
+  - rewrite seq_S, filter_app, IH. cbn [filter].
+    destruct (s <=? a + n) eqn:E.
+    + apply Nat.leb_le in E.
+      replace (a + S n - Nat.max a s) with (S (a + n - Nat.max a s)) by lia.
+      rewrite seq_S. f_equal. f_equal. lia.
+    + apply Nat.leb_gt in E. rewrite app_nil_r. f_equal. lia.
+Qed.
+
+Lemma fold_if_count (p : nat -> bool) (n : nat) : forall (l : list nat) acc,
+  fold_left (fun acc t => if p t then acc + n else acc) l acc
+  = acc + length (filter p l) * n.
+Proof.
+  induction l as [|t l IH]; intros acc; simpl; [lia|].
+  rewrite IH. destruct (p t); simpl; lia.
+Qed.
+
+Lemma applies_at_S1 : forall fb f t, sustain_of fb f = 1 ->
+  applies_at fb f (S t) = applies_to_trial fb f (t + 1).
+Proof.
+  intros fb f t H. unfold applies_at, sustain. rewrite H.
+  replace (S t - 1) with t by lia. rewrite Nat.div_1_r. reflexivity.
+Qed.
+
+Lemma vff_napp : forall fb f, variables_for_factor fb f 0 0 = napp fb f * nlevels fb f.
+Proof.
+  intros fb f. unfold variables_for_factor. cbn [Nat.eqb].
+  rewrite fold_if_count. unfold napp, prev, previous_trials_count, T, trials.
+  cbn [Nat.add]. replace (S (fl_trials fb) - 1) with (fl_trials fb - 0) by lia. reflexivity.
+Qed.
+
+Lemma trials_of_shift : forall fb f a n,
+  length (filter (fun t => applies_at fb f t) (seq (1 + a) n))
+  = length (filter (fun t => applies_at fb f (S t)) (seq a n)).
+Proof.
+  intros fb f a n. cbn [Nat.add]. rewrite <- seq_shift.
+  generalize (seq a n) as l. induction l as [|x l IH]; simpl; auto.
+  destruct (applies_at fb f (S x)); simpl; rewrite IH; reflexivity.
+Qed.
+
+Lemma vff_trials_of : forall fb f start e, e <> 0 ->
+  variables_for_factor fb f start e = length (trials_of fb f start e) * nlevels fb f.
+Proof.
+  intros fb f start e He. unfold variables_for_factor.
+  replace (e =? 0) with false by (symmetry; apply Nat.eqb_neq; exact He).
+  rewrite fold_if_count. cbn [Nat.add]. unfold trials_of.
+  rewrite <- trials_of_shift. reflexivity.
+Qed.
+
+Lemma ranges_loop_pos : forall fb fuel start e step stop, 0 < e -> 0 < trials fb ->
+  Forall (fun r => 0 < snd r) (ranges_loop fb fuel start e step stop).
+Proof.
+  intros fb fuel. induction fuel as [|fuel IH]; intros start e step stop He Ht; simpl; [constructor|].
+  destruct (start <? stop); [|constructor].
+  constructor; [cbn [snd]; lia|apply IH; lia].
+Qed.
+
+Lemma ranges_loop_stop0 : forall fb fuel start e step, ranges_loop fb fuel start e step 0 = [].
+Proof. intros fb [|fuel] start e step; simpl; reflexivity. Qed.
+
+Lemma zrange_length : forall n a, length (zrange a n) = n.
+Proof. induction n as [|n IH]; intros a; simpl; auto. Qed.
+
+Lemma zrange_app : forall n m a, zrange a (n + m) = zrange a n ++ zrange (a + Z.of_nat n)%Z m.
+Proof.
+  induction n as [|n IH]; intros m a.
+  - simpl. f_equal. lia.
+  - cbn [Nat.add zrange app]. f_equal. rewrite IH. f_equal. f_equal. lia.
+Qed.
+
+Lemma firstn_app_len {A} (l1 l2 : list A) n : length l1 = n -> firstn n (l1 ++ l2) = l1.
+Proof. intros <-. rewrite firstn_app, Nat.sub_diag, firstn_all. simpl. apply app_nil_r. Qed.
+
+Lemma skipn_app_len {A} (l1 l2 : list A) n : length l1 = n -> skipn n (l1 ++ l2) = l2.
+Proof. intros <-. rewrite skipn_app, Nat.sub_diag, skipn_all. reflexivity. Qed.
+
+Lemma chunk_list_S {A} fu (l : list A) n : firstn n l <> [] ->
+  chunk_list (S fu) l n = firstn n l :: chunk_list fu (skipn n l) n.
+Proof. intros H. cbn [chunk_list]. destruct (firstn n l); [congruence|reflexivity]. Qed.
+
+Lemma chunk_zrange : forall n, 0 < n -> forall k fuel a, k <= fuel ->
+  chunk_list fuel (zrange a (k * n)) n = map (fun i => zrange (a + Z.of_nat (i * n))%Z n) (seq 0 k).
+Proof.
+  intros n Hn. induction k as [|k IH]; intros fuel a Hk.
+  - cbn [Nat.mul zrange seq map]. destruct fuel; [reflexivity|].
+    cbn [chunk_list]. rewrite firstn_nil. reflexivity.
+  - destruct fuel as [|fu]; [lia|]. cbn [Nat.mul]. rewrite zrange_app.
+    assert (F : firstn n (zrange a n ++ zrange (a + Z.of_nat n) (k * n)) = zrange a n)
+      by (apply firstn_app_len, zrange_length).
+    rewrite chunk_list_S by (rewrite F; destruct n; [lia|discriminate]).
+    rewrite F, (skipn_app_len _ _ n (zrange_length n a)), IH by lia.
+    cbn [seq map]. f_equal.
+    + f_equal. lia.
+    + rewrite <- seq_shift, map_map. apply map_ext. intros i. f_equal. lia.
+Qed.
+
 (** * The layout on F1 *)
 Section F1.
 Variable fb : flat.
@@ -274,95 +480,175 @@ Proof.
   rewrite (f1_act_sorted fb FF). apply NoDup_filter_seq.
 Qed.
 
-Lemma f1_is_complex : forall f, isact fb f = true -> is_complex fb f = false.
-Proof.
-  intros f Ha. unfold is_complex, factor_at. destruct (nth_error (fl_design fb) f) as [fd|] eqn:E; auto.
-  pose proof (f1_factor fb FF f fd E Ha) as H. unfold factor_f1 in H.
-  repeat rewrite andb_true_iff in H. destruct H as [[H _] _].
-  apply negb_true_iff. exact H.
-Qed.
-
-Lemma f1_simple_act : simple_act fb = fl_act fb.
-Proof.
-  unfold simple_act. apply filter_all_true.
-  intros f Hf. rewrite f1_is_complex; [reflexivity|]. now apply isact_In.
-Qed.
-
-Lemma f1_complex_act : complex_act fb = [].
-Proof.
-  unfold complex_act. apply filter_all_false. intros f Hf. apply f1_is_complex. now apply isact_In.
-Qed.
-
 Lemma f1_nlevels_pos : forall f, f < nf fb -> 0 < nlevels fb f.
 Proof.
   intros f Hf. unfold nlevels, factor_at.
   destruct (nth_error (fl_design fb) f) as [fd|] eqn:E.
   - destruct (isact fb f) eqn:Ha.
     + pose proof (f1_factor fb FF f fd E Ha) as H. unfold factor_f1 in H.
-      repeat rewrite andb_true_iff in H. destruct H as [[_ H] _]. apply Nat.ltb_lt. exact H.
+      apply andb_true_iff in H. destruct H as [H _]. apply Nat.ltb_lt. exact H.
     + pose proof (f1_implied fb FF f fd E) as H. unfold implied_ok in H. rewrite Ha in H. cbn [orb] in H.
       unfold factor_impl_f1 in H. repeat rewrite andb_true_iff in H. destruct H as [[H _] _]. apply Nat.ltb_lt. exact H.
   - apply nth_error_None in E. unfold nf in Hf. lia.
 Qed.
 
-Lemma f1_applies_to_trial : forall f n, isact fb f = true -> 1 <= n -> applies_to_trial fb f n = true.
+Lemma f1_simple_act : simple_act fb = filter (sact fb) (seq 0 (nf fb)).
 Proof.
-  intros f n Ha Hn. unfold applies_to_trial, factor_at.
-  destruct (nth_error (fl_design fb) f) as [fd|] eqn:E; auto.
-  pose proof (f1_factor fb FF f fd E Ha) as H. unfold factor_f1 in H.
+  unfold simple_act. rewrite (f1_act_sorted fb FF) at 1. rewrite filter_filter. reflexivity.
+Qed.
+
+Lemma f1_complex_act : complex_act fb = filter (cact fb) (seq 0 (nf fb)).
+Proof.
+  unfold complex_act. rewrite (f1_act_sorted fb FF) at 1. rewrite filter_filter. reflexivity.
+Qed.
+
+(* the shape of a factor of act_design *)
+Lemma f1_act_shape : forall f, isact fb f = true ->
+  exists fd, nth_error (fl_design fb) f = Some fd /\ factor_f1 fd = true.
+Proof.
+  intros f Ha. pose proof (f1_act_lt f Ha) as L. unfold nf in L.
+  destruct (nth_error (fl_design fb) f) as [fd|] eqn:E.
+  - exists fd. split; [reflexivity|]. exact (f1_factor fb FF f fd E Ha).
+  - apply nth_error_None in E. lia.
+Qed.
+
+Lemma lappl_unfold : forall f t, lappl fb f t = applies_to_trial fb f (t + 1).
+Proof. intros f t. unfold lappl. apply applies_at_S1. apply (f1_sustain fb FF). Qed.
+
+(** ** Where a factor of act_design has a level *)
+Lemma lappl_simple : forall f t, isact fb f = true -> is_complex fb f = false -> lappl fb f t = true.
+Proof.
+  intros f t Ha Hc. rewrite lappl_unfold.
+  destruct (f1_act_shape f Ha) as (fd & E & H).
+  unfold is_complex, factor_at in Hc. unfold applies_to_trial, factor_at. rewrite E in *.
+  unfold factor_f1 in H. rewrite Hc in H.
   destruct (ff_window fd) as [w|]; auto.
-  repeat rewrite andb_true_iff in H. destruct H as [_ [[_ H2] H3]].
+  repeat rewrite andb_true_iff in H. destruct H as [_ [[H1 H2] H3]].
   apply Nat.eqb_eq in H2. apply Nat.eqb_eq in H3. rewrite H2, H3.
   rewrite Nat.mod_1_r. apply andb_true_iff. split; [apply Nat.leb_le; lia|reflexivity].
 Qed.
 
-Lemma f1_applies : forall f t, isact fb f = true -> applies_at fb f t = true.
+Lemma prev_simple : forall f t, isact fb f = true -> is_complex fb f = false -> prev fb f t = t.
 Proof.
-  intros f t Ha. unfold applies_at. apply f1_applies_to_trial; [exact Ha|lia].
+  intros f t Ha Hc. induction t as [|t IH]; [apply prev_0|].
+  rewrite prev_S, IH, (lappl_simple f t Ha Hc). lia.
 Qed.
+
+(** a factor with stride 1 has a level from its first trial on *)
+Lemma lappl_stride1 : forall f t, isact fb f = true -> stride1 fb f = true ->
+  lappl fb f t = (start_of fb f <=? t).
+Proof.
+  intros f t Ha Hs. rewrite lappl_unfold.
+  destruct (f1_act_shape f Ha) as (fd & E & H).
+  unfold stride1, start_of, factor_at in *. unfold applies_to_trial, factor_at. rewrite E in *.
+  unfold factor_f1 in H.
+  destruct (ff_window fd) as [w|]; [|reflexivity].
+  destruct (ff_complex fd).
+  - cbn [negb orb] in Hs. apply Nat.eqb_eq in Hs. rewrite Hs, Nat.mod_1_r.
+    cbn [Nat.eqb]. rewrite andb_true_r.
+    destruct (win_start w <=? t) eqn:Q; [apply Nat.leb_le in Q; apply Nat.leb_le; lia|
+                                         apply Nat.leb_gt in Q; apply Nat.leb_gt; lia].
+  - repeat rewrite andb_true_iff in H. destruct H as [_ [[H1 H2] H3]].
+    apply Nat.eqb_eq in H2. apply Nat.eqb_eq in H3. rewrite H2, H3.
+    rewrite Nat.mod_1_r. cbn [Nat.eqb Nat.leb]. rewrite andb_true_r. apply Nat.leb_le. lia.
+Qed.
+
+Lemma start_simple : forall f, isact fb f = true -> is_complex fb f = false -> start_of fb f = 0.
+Proof.
+  intros f Ha Hc.
+  destruct (f1_act_shape f Ha) as (fd & E & H).
+  unfold is_complex, start_of, factor_at in *. rewrite E in *.
+  unfold factor_f1 in H. rewrite Hc in H.
+  destruct (ff_window fd) as [w|]; auto.
+  repeat rewrite andb_true_iff in H. destruct H as [_ [[H1 H2] H3]].
+  apply Nat.eqb_eq in H3. exact H3.
+Qed.
+
+Lemma trials_of_simple : forall f a b, isact fb f = true -> is_complex fb f = false ->
+  trials_of fb f a b = seq a (b - a).
+Proof.
+  intros f a b Ha Hc. unfold trials_of. apply filter_all_true.
+  intros t _. apply (lappl_simple f t Ha Hc).
+Qed.
+
+Lemma trials_of_stride1 : forall f a b, isact fb f = true -> stride1 fb f = true ->
+  trials_of fb f a b = seq (Nat.max a (start_of fb f)) (b - Nat.max a (start_of fb f)).
+Proof.
+  intros f a b Ha Hs. unfold trials_of.
+  rewrite (filter_ext _ (fun t => start_of fb f <=? t)).
+  - rewrite filter_leb_seq. f_equal. lia.
+  - intros t. apply (lappl_stride1 f t Ha Hs).
+Qed.
+
+(** ** Sizes *)
+Lemma gvar_simple : forall t f l, is_complex fb f = false -> gvar fb t f l = t * vpt fb + off fb f + l + 1.
+Proof. intros t f l H. unfold gvar. now rewrite H. Qed.
+
+Lemma gvar_complex : forall t f l, is_complex fb f = true ->
+  gvar fb t f l = GN fb + coff fb f + prev fb f t * nlevels fb f + l + 1.
+Proof. intros t f l H. unfold gvar. now rewrite H. Qed.
 
 Lemma f1_vpt : vpt fb = off fb (nf fb).
 Proof.
-  unfold vpt, variables_per_trial. rewrite f1_simple_act, (f1_act_sorted fb FF).
+  unfold vpt, variables_per_trial. rewrite f1_simple_act.
   rewrite fold_left_filter_add. reflexivity.
 Qed.
 
-Lemma f1_off_vpt : forall f, isact fb f = true -> off fb f + nlevels fb f <= vpt fb.
+Lemma sact_isact : forall f, sact fb f = true -> isact fb f = true /\ is_complex fb f = false.
 Proof.
-  intros f Hf. rewrite f1_vpt, <- (anl_act fb f Hf). apply off_mono. apply f1_act_lt. exact Hf.
+  intros f H. unfold sact in H. apply andb_true_iff in H. destruct H as [H1 H2].
+  apply negb_true_iff in H2. split; assumption.
 Qed.
 
-Lemma fold_applies_count : forall f (l : list nat) acc, isact fb f = true ->
-  fold_left (fun acc t => if applies_at fb f t then acc + nlevels fb f else acc) l acc
-  = acc + length l * nlevels fb f.
+Lemma cact_isact : forall f, cact fb f = true -> isact fb f = true /\ is_complex fb f = true.
 Proof.
-  intros f l acc Ha. revert acc. induction l as [|t l IH]; intros acc; simpl; [lia|].
-  rewrite (f1_applies f t Ha), IH. lia.
+  intros f H. unfold cact in H. apply andb_true_iff in H. exact H.
 Qed.
 
-Lemma f1_vff : forall f, isact fb f = true -> variables_for_factor fb f 0 0 = T fb * nlevels fb f.
+Lemma sact_intro : forall f, isact fb f = true -> is_complex fb f = false -> sact fb f = true.
+Proof. intros f H1 H2. unfold sact. rewrite H1, H2. reflexivity. Qed.
+
+Lemma cact_intro : forall f, isact fb f = true -> is_complex fb f = true -> cact fb f = true.
+Proof. intros f H1 H2. unfold cact. rewrite H1, H2. reflexivity. Qed.
+
+Lemma cnl_act : forall f, cact fb f = true -> cnl fb f = napp fb f * nlevels fb f.
+Proof. intros f H. unfold cnl. rewrite H. reflexivity. Qed.
+
+Lemma cnl_nact : forall f, cact fb f = false -> cnl fb f = 0.
+Proof. intros f H. unfold cnl. rewrite H. reflexivity. Qed.
+
+Lemma f1_off_vpt : forall f, sact fb f = true -> off fb f + nlevels fb f <= vpt fb.
 Proof.
-  intros f Ha. unfold variables_for_factor. cbn [Nat.eqb].
-  rewrite (fold_applies_count f _ _ Ha), seq_length. unfold T, trials. lia.
+  intros f Hf. rewrite f1_vpt, <- (anl_act fb f Hf). apply off_mono. apply f1_act_lt.
+  apply sact_isact. exact Hf.
 Qed.
 
-Lemma f1_vps : variables_per_sample fb = T fb * vpt fb.
+Lemma f1_vff : forall f, variables_for_factor fb f 0 0 = napp fb f * nlevels fb f.
+Proof. intros f. apply vff_napp. Qed.
+
+Lemma f1_vps : variables_per_sample fb = VN fb.
 Proof.
-  unfold variables_per_sample. rewrite (f1_act_sorted fb FF), f1_vpt, fold_left_filter_add.
+  unfold variables_per_sample, VN, GN. rewrite (f1_act_sorted fb FF) at 1.
+  rewrite f1_vpt, fold_left_filter_add.
   induction (nf fb) as [|n IH].
-  - rewrite off_0. simpl. lia.
-  - rewrite seq_S, fold_left_app, IH, off_S. cbn [fold_left Nat.add]. unfold anl.
-    destruct (isact fb n) eqn:Ea; [rewrite (f1_vff n Ea)|]; lia.
+  - rewrite off_0, coff_0. simpl. lia.
+  - rewrite seq_S, fold_left_app, IH, off_S, coff_S. cbn [fold_left Nat.add].
+    unfold anl, cnl, sact, cact.
+    destruct (isact fb n) eqn:Ea; cbn [andb]; [|lia].
+    rewrite (f1_vff n).
+    destruct (is_complex fb n) eqn:Ec; cbn [negb]; [lia|].
+    unfold napp. rewrite (prev_simple n (T fb) Ea Ec). lia.
 Qed.
 
-Lemma f1_grid : grid_variables fb = T fb * vpt fb.
+Lemma f1_grid : grid_variables fb = GN fb.
 Proof. reflexivity. Qed.
 
-Lemma f1_simple_offset : forall n s f, s <= f < s + n -> isact fb f = true ->
-  simple_offset fb (filter (isact fb) (seq s n)) f = Some (off fb f - off fb s).
+(** ** Variables *)
+Lemma f1_simple_offset : forall n s f, s <= f < s + n -> sact fb f = true ->
+  simple_offset fb (filter (sact fb) (seq s n)) f = Some (off fb f - off fb s).
 Proof.
   induction n as [|n IH]; intros s f H Hf; [lia|].
-  cbn [seq filter]. destruct (isact fb s) eqn:Es.
+  cbn [seq filter]. destruct (sact fb s) eqn:Es.
   - cbn [simple_offset]. destruct (s =? f) eqn:E.
     + apply Nat.eqb_eq in E. subst. f_equal. lia.
     + apply Nat.eqb_neq in E. rewrite IH by (try lia; exact Hf). cbn [option_map]. f_equal.
@@ -373,29 +659,48 @@ Proof.
     rewrite off_S, (anl_nact fb s Es). lia.
 Qed.
 
-Lemma f1_first_var : forall f l, isact fb f = true -> l < nlevels fb f ->
-  first_variable_for_level fb f l = Some (off fb f + l).
+Lemma f1_complex_offset : forall n s f l, s <= f < s + n -> cact fb f = true ->
+  complex_offset fb (filter (cact fb) (seq s n)) f l = coff fb f - coff fb s + l.
 Proof.
-  intros f l Hf Hl. pose proof (f1_act_lt f Hf) as Hlt.
-  unfold first_variable_for_level. rewrite (f1_is_complex f Hf).
-  replace (l <? nlevels fb f) with true by (symmetry; apply Nat.ltb_lt; exact Hl).
-  rewrite f1_simple_act, (f1_act_sorted fb FF), f1_simple_offset by (try lia; exact Hf).
-  cbn [option_map]. rewrite off_0. f_equal. lia.
+  induction n as [|n IH]; intros s f l H Hf; [lia|].
+  cbn [seq filter]. destruct (cact fb s) eqn:Es.
+  - cbn [complex_offset]. destruct (s =? f) eqn:E.
+    + apply Nat.eqb_eq in E. subst. lia.
+    + apply Nat.eqb_neq in E. rewrite IH by (try lia; exact Hf).
+      pose proof (coff_mono fb s f ltac:(lia)) as H1.
+      rewrite f1_vff. rewrite coff_S. rewrite (cnl_act s Es) in *. lia.
+  - assert (E : s <> f) by (intros Q; subst; congruence).
+    rewrite IH by (try lia; exact Hf).
+    rewrite coff_S, (cnl_nact s Es). lia.
 Qed.
 
-Lemma f1_prev : forall f t, isact fb f = true -> previous_trials_count fb f t = t - 1.
+Lemma f1_first_var : forall f l, isact fb f = true -> l < nlevels fb f ->
+  first_variable_for_level fb f l =
+  Some (if is_complex fb f then GN fb + coff fb f + l else off fb f + l).
 Proof.
-  intros f t Ha. unfold previous_trials_count. rewrite filter_all_true.
-  - apply seq_length.
-  - intros x _. now apply f1_applies.
+  intros f l Hf Hl. pose proof (f1_act_lt f Hf) as Hlt.
+  unfold first_variable_for_level. destruct (is_complex fb f) eqn:Ec.
+  - rewrite f1_complex_act, f1_complex_offset by (try lia; apply cact_intro; assumption).
+    rewrite coff_0. rewrite f1_grid. f_equal. lia.
+  - replace (l <? nlevels fb f) with true by (symmetry; apply Nat.ltb_lt; exact Hl).
+    rewrite f1_simple_act, f1_simple_offset by (try lia; apply sact_intro; assumption).
+    cbn [option_map]. rewrite off_0. f_equal. lia.
+Qed.
+
+Lemma ptc_prev : forall f trial, previous_trials_count fb f trial = prev fb f (trial - 1).
+Proof.
+  intros f trial. unfold prev, previous_trials_count.
+  replace (S (trial - 1) - 1) with (trial - 1) by lia. reflexivity.
 Qed.
 
 Lemma f1_encode_any : forall f l trial, isact fb f = true -> l < nlevels fb f ->
   encode_variable fb f l trial = Some (gvar fb (trial - 1) f l).
 Proof.
   intros f l trial Hf Hl. unfold encode_variable.
-  rewrite f1_first_var, (f1_is_complex f Hf), f1_prev by assumption.
-  unfold gvar, vpt. f_equal. lia.
+  rewrite f1_first_var by assumption. rewrite ptc_prev. unfold gvar.
+  destruct (is_complex fb f) eqn:Ec.
+  - f_equal. lia.
+  - rewrite (prev_simple f (trial - 1) Hf Ec). unfold vpt. f_equal. lia.
 Qed.
 
 Lemma f1_encode : forall f l t, isact fb f = true -> l < nlevels fb f ->
@@ -410,13 +715,31 @@ Proof.
   intros f l t Hf Hl. unfold get_variable. rewrite f1_encode by assumption. reflexivity.
 Qed.
 
-Lemma gvar_range : forall t f l, t < T fb -> isact fb f = true -> l < nlevels fb f ->
-  1 <= gvar fb t f l <= T fb * vpt fb.
+Lemma gvar_pos : forall t f l, 0 < gvar fb t f l.
+Proof. intros t f l. unfold gvar. destruct (is_complex fb f); lia. Qed.
+
+Lemma gvar_range : forall t f l, t < T fb -> isact fb f = true -> l < nlevels fb f -> lappl fb f t = true ->
+  1 <= gvar fb t f l <= VN fb.
 Proof.
-  intros t f l Ht Hf Hl. pose proof (f1_off_vpt f Hf) as H. unfold gvar. nia.
+  intros t f l Ht Hf Hl Ha. unfold gvar, VN. destruct (is_complex fb f) eqn:Ec.
+  - pose proof (coff_mono fb f (nf fb) (f1_act_lt f Hf)) as M.
+    rewrite (cnl_act f (cact_intro f Hf Ec)) in M.
+    pose proof (prev_lt fb f t (T fb) Ht Ha) as P. fold (napp fb f) in P. nia.
+  - pose proof (f1_off_vpt f (sact_intro f Hf Ec)) as H. unfold GN. nia.
 Qed.
 
-Lemma off_level_inj : forall f l f' l', isact fb f = true -> isact fb f' = true ->
+(** grid variables are at most [GN], the others above *)
+Lemma gvar_grid : forall t f l, t < T fb -> isact fb f = true -> is_complex fb f = false -> l < nlevels fb f ->
+  gvar fb t f l <= GN fb.
+Proof.
+  intros t f l Ht Hf Ec Hl. rewrite (gvar_simple t f l Ec).
+  pose proof (f1_off_vpt f (sact_intro f Hf Ec)) as H. unfold GN. nia.
+Qed.
+
+Lemma gvar_above : forall t f l, is_complex fb f = true -> GN fb < gvar fb t f l.
+Proof. intros t f l H. rewrite (gvar_complex t f l H). lia. Qed.
+
+Lemma off_level_inj : forall f l f' l', sact fb f = true -> sact fb f' = true ->
   l < nlevels fb f -> l' < nlevels fb f' ->
   off fb f + l = off fb f' + l' -> f = f' /\ l = l'.
 Proof.
@@ -428,113 +751,217 @@ Proof.
   - pose proof (off_mono fb f' f C). lia.
 Qed.
 
+Lemma coff_block_inj : forall f r f' r', cact fb f = true -> cact fb f' = true ->
+  r < cnl fb f -> r' < cnl fb f' ->
+  coff fb f + r = coff fb f' + r' -> f = f' /\ r = r'.
+Proof.
+  intros f r f' r' Hf Hf' Hr Hr' H.
+  destruct (Nat.lt_trichotomy f f') as [C|[C|C]].
+  - pose proof (coff_mono fb f f' C). lia.
+  - subst. split; lia.
+  - pose proof (coff_mono fb f' f C). lia.
+Qed.
+
+Lemma prev_napp : forall f t, t < T fb -> lappl fb f t = true -> prev fb f t < napp fb f.
+Proof. intros f t Ht Ha. unfold napp. apply prev_lt; assumption. Qed.
+
 Lemma gvar_inj : forall t f l t' f' l',
-  isact fb f = true -> l < nlevels fb f -> isact fb f' = true -> l' < nlevels fb f' ->
+  t < T fb -> isact fb f = true -> l < nlevels fb f -> lappl fb f t = true ->
+  t' < T fb -> isact fb f' = true -> l' < nlevels fb f' -> lappl fb f' t' = true ->
   gvar fb t f l = gvar fb t' f' l' -> t = t' /\ f = f' /\ l = l'.
 Proof.
-  intros t f l t' f' l' Hf Hl Hf' Hl' H.
-  pose proof (f1_off_vpt f Hf) as B. pose proof (f1_off_vpt f' Hf') as B'.
-  unfold gvar in H.
-  assert (E : t = t' /\ off fb f + l = off fb f' + l').
-  { apply (Nat.div_mod_unique (vpt fb)); lia. }
-  destruct E as [E1 E2]. split; [exact E1|].
-  apply off_level_inj; assumption.
+  intros t f l t' f' l' Ht Hf Hl Ha Ht' Hf' Hl' Ha' H.
+  destruct (is_complex fb f) eqn:Ec; destruct (is_complex fb f') eqn:Ec'.
+  - rewrite (gvar_complex t f l Ec), (gvar_complex t' f' l' Ec') in H.
+    pose proof (prev_napp f t Ht Ha) as P. pose proof (prev_napp f' t' Ht' Ha') as P'.
+    destruct (coff_block_inj f (prev fb f t * nlevels fb f + l) f' (prev fb f' t' * nlevels fb f' + l')) as [E1 E2].
+    + apply cact_intro; assumption.
+    + apply cact_intro; assumption.
+    + rewrite cnl_act by (apply cact_intro; assumption). nia.
+    + rewrite cnl_act by (apply cact_intro; assumption). nia.
+    + lia.
+    + subst f'.
+      assert (E : prev fb f t = prev fb f t' /\ l = l').
+      { apply (Nat.div_mod_unique (nlevels fb f)); lia. }
+      destruct E as [E3 E4]. split; [|split; [reflexivity|exact E4]].
+      destruct (Nat.lt_trichotomy t t') as [C|[C|C]]; [|exact C|].
+      * pose proof (prev_lt fb f t t' C Ha). lia.
+      * pose proof (prev_lt fb f t' t C Ha'). lia.
+  - pose proof (gvar_above t f l Ec). pose proof (gvar_grid t' f' l' Ht' Hf' Ec' Hl'). lia.
+  - pose proof (gvar_above t' f' l' Ec'). pose proof (gvar_grid t f l Ht Hf Ec Hl). lia.
+  - pose proof (f1_off_vpt f (sact_intro f Hf Ec)) as B.
+    pose proof (f1_off_vpt f' (sact_intro f' Hf' Ec')) as B'.
+    rewrite (gvar_simple t f l Ec), (gvar_simple t' f' l' Ec') in H.
+    assert (E : t = t' /\ off fb f + l = off fb f' + l').
+    { apply (Nat.div_mod_unique (vpt fb)); lia. }
+    destruct E as [E1 E2]. split; [exact E1|].
+    apply off_level_inj; try assumption; apply sact_intro; assumption.
 Qed.
 
 Lemma off_decompose : forall n r, r < off fb n ->
-  exists f l, f < n /\ isact fb f = true /\ l < nlevels fb f /\ r = off fb f + l.
+  exists f l, f < n /\ sact fb f = true /\ l < nlevels fb f /\ r = off fb f + l.
 Proof.
   induction n as [|n IH]; intros r Hr.
   - rewrite off_0 in Hr. lia.
   - rewrite off_S in Hr. destruct (Nat.lt_ge_cases r (off fb n)) as [C|C].
     + destruct (IH r C) as [f [l [H1 [H2 [H3 H4]]]]]. exists f, l. repeat split; auto.
-    + unfold anl in Hr. destruct (isact fb n) eqn:En; [|lia].
+    + unfold anl in Hr. destruct (sact fb n) eqn:En; [|lia].
       exists n, (r - off fb n). repeat split; auto; lia.
 Qed.
 
-Lemma gvar_surj : forall v, 1 <= v <= T fb * vpt fb ->
-  exists t f l, t < T fb /\ isact fb f = true /\ l < nlevels fb f /\ v = gvar fb t f l.
+Lemma coff_decompose : forall n r, r < coff fb n ->
+  exists f r', f < n /\ cact fb f = true /\ r' < cnl fb f /\ r = coff fb f + r'.
 Proof.
-  intros v Hv.
-  assert (V : vpt fb <> 0) by nia.
-  pose proof (Nat.div_mod (v - 1) (vpt fb) V) as D.
-  pose proof (Nat.mod_upper_bound (v - 1) (vpt fb) V) as M.
-  destruct (off_decompose (nf fb) ((v - 1) mod vpt fb)) as [f [l [_ [H1 [H2 H3]]]]].
-  { rewrite <- f1_vpt. exact M. }
-  exists ((v - 1) / vpt fb), f, l. repeat split; auto.
-  - apply Nat.div_lt_upper_bound; [exact V|]. nia.
-  - unfold gvar. nia.
+  induction n as [|n IH]; intros r Hr.
+  - rewrite coff_0 in Hr. lia.
+  - rewrite coff_S in Hr. destruct (Nat.lt_ge_cases r (coff fb n)) as [C|C].
+    + destruct (IH r C) as [f [l [H1 [H2 [H3 H4]]]]]. exists f, l. repeat split; auto.
+    + destruct (cact fb n) eqn:En; [|rewrite (cnl_nact n En) in Hr; lia].
+      exists n, (r - coff fb n). repeat split; auto; lia.
+Qed.
+
+Lemma gvar_surj : forall v, 1 <= v <= VN fb ->
+  exists t f l, t < T fb /\ isact fb f = true /\ l < nlevels fb f /\ lappl fb f t = true /\ v = gvar fb t f l.
+Proof.
+  intros v Hv. destruct (Nat.le_gt_cases v (GN fb)) as [C|C].
+  - unfold GN in C.
+    assert (V : vpt fb <> 0) by nia.
+    pose proof (Nat.div_mod (v - 1) (vpt fb) V) as D.
+    pose proof (Nat.mod_upper_bound (v - 1) (vpt fb) V) as M.
+    destruct (off_decompose (nf fb) ((v - 1) mod vpt fb)) as [f [l [_ [H1 [H2 H3]]]]].
+    { rewrite <- f1_vpt. exact M. }
+    destruct (sact_isact f H1) as [Hi Hc].
+    exists ((v - 1) / vpt fb), f, l. repeat split; auto.
+    + apply Nat.div_lt_upper_bound; [exact V|]. nia.
+    + apply lappl_simple; assumption.
+    + rewrite gvar_simple by assumption. nia.
+  - unfold VN in Hv.
+    destruct (coff_decompose (nf fb) (v - GN fb - 1)) as (f & r & Hlt & Hc & Hr & Er); [lia|].
+    destruct (cact_isact f Hc) as [Hi Hcx].
+    rewrite (cnl_act f Hc) in Hr.
+    pose proof (f1_nlevels_pos f Hlt) as NL.
+    assert (N0 : nlevels fb f <> 0) by lia.
+    pose proof (Nat.div_mod r (nlevels fb f) N0) as D.
+    pose proof (Nat.mod_upper_bound r (nlevels fb f) N0) as M.
+    assert (K : r / nlevels fb f < napp fb f).
+    { apply Nat.div_lt_upper_bound; [exact N0|]. nia. }
+    destruct (prev_hit fb f (T fb) (r / nlevels fb f) K) as (t & Ht & Ha & Ep).
+    exists t, f, (r mod nlevels fb f). repeat split; auto.
+    rewrite gvar_complex by assumption. rewrite Ep. nia.
 Qed.
 
 (** ** Variable lists *)
-Lemma f1_simple_range_vars : forall f l s e,
+Lemma f1_ranges_pos : forall wb rs, 0 < T fb -> map_block_trial_ranges fb wb = Some rs ->
+  Forall (fun r => 0 < snd r) rs.
+Proof.
+  intros wb rs HT H. unfold T in HT. change (fl_trials fb) with (trials fb) in HT.
+  assert (SomeE : forall a b : list (nat * nat), Some a = Some b -> a = b) by (intros a b Q; congruence).
+  unfold map_block_trial_ranges in H. destruct wb as [g|].
+  - destruct ((g_trials g <=? g_preamble g) && (0 <? trials fb - g_preamble g)) eqn:Q; [discriminate|].
+    assert (W : forall fuel start, Forall (fun r => 0 < snd r)
+                (ranges_loop fb fuel start (g_trials g) (g_trials g - g_preamble g) (trials fb - g_preamble g))).
+    { intros fuel start. destruct (g_trials g) as [|k] eqn:G.
+      - assert (Z0 : trials fb - g_preamble g = 0).
+        { apply andb_false_iff in Q. destruct Q as [Q|Q].
+          - apply Nat.leb_gt in Q. lia.
+          - apply Nat.ltb_ge in Q. lia. }
+        rewrite Z0, ranges_loop_stop0. constructor.
+      - apply ranges_loop_pos; lia. }
+    destruct (fl_alignment fb).
+    + destruct (post_preamble_size fb <? g_preamble g); [discriminate|].
+      apply SomeE in H. rewrite <- H. apply W.
+    + apply SomeE in H. rewrite <- H. apply W.
+    + apply SomeE in H. rewrite <- H. apply W.
+  - apply SomeE in H. rewrite <- H. apply ranges_loop_pos; lia.
+Qed.
+
+Lemma f1_simple_range_vars : forall f l s e, is_complex fb f = false ->
   simple_range_vars fb (off fb f + l) s e = map (fun t => gvar fb t f l) (seq s (e - s)).
 Proof.
-  intros f l s e. unfold simple_range_vars. rewrite (map_seq_shift0 (fun t => gvar fb t f l)).
-  apply map_ext. intros i. unfold gvar, vpt. lia.
+  intros f l s e Hc. unfold simple_range_vars. rewrite (map_seq_shift0 (fun t => gvar fb t f l)).
+  apply map_ext. intros i. rewrite gvar_simple by assumption. unfold vpt. lia.
 Qed.
 
-Lemma f1_build_variable_lists : forall f l wb rs, isact fb f = true -> l < nlevels fb f ->
-  map_block_trial_ranges fb wb = Some rs ->
-  build_variable_lists fb f l wb =
-  Some (map (fun r => map (fun t => gvar fb t f l) (seq (fst r) (snd r - fst r))) rs).
+Lemma trials_of_prev_len : forall f a b,
+  map (prev fb f) (trials_of fb f a b) = seq (prev fb f a) (length (trials_of fb f a b)).
 Proof.
-  intros f l wb rs Hf Hl Hrs. unfold build_variable_lists.
-  rewrite f1_first_var, Hrs by assumption. f_equal.
-  apply map_ext. intros r. rewrite (f1_is_complex f Hf). apply f1_simple_range_vars.
+  intros f a b. destruct (Nat.le_gt_cases a b) as [C|C].
+  - rewrite (trials_of_length fb f a b C). apply trials_of_prev. exact C.
+  - unfold trials_of. replace (b - a) with 0 by lia. reflexivity.
 Qed.
 
-Lemma f1_var_lists : forall f l wb rs, isact fb f = true -> l < nlevels fb f ->
+Lemma f1_complex_range_vars : forall f l s e, f < nf fb -> is_complex fb f = true -> 0 < e ->
+  complex_range_vars fb f (GN fb + coff fb f + l) s e = map (fun t => gvar fb t f l) (trials_of fb f s e).
+Proof.
+  intros f l s e Hf Hc He. pose proof (f1_nlevels_pos f Hf) as NL.
+  unfold complex_range_vars. cbv zeta. rewrite vff_trials_of by lia. rewrite Nat.div_mul by lia.
+  replace (s + 1) with (S s) by lia. change (previous_trials_count fb f (S s)) with (prev fb f s).
+  transitivity (map (fun k => GN fb + coff fb f + k * nlevels fb f + l + 1)
+                    (map (prev fb f) (trials_of fb f s e))).
+  2: { rewrite map_map. apply map_ext. intros t. symmetry. apply gvar_complex. exact Hc. }
+  rewrite trials_of_prev_len, (map_seq_shift0 _ (prev fb f s)). apply map_ext. intros i. lia.
+Qed.
+
+Lemma f1_var_lists : forall f l wb rs, 0 < T fb -> isact fb f = true -> l < nlevels fb f ->
   map_block_trial_ranges fb wb = Some rs ->
   var_lists fb f l wb =
-  COk (map (fun r => map (fun t => gvar fb t f l) (seq (fst r) (snd r - fst r))) rs).
+  COk (map (fun r => map (fun t => gvar fb t f l) (trials_of fb f (fst r) (snd r))) rs).
 Proof.
-  intros f l wb rs Hf Hl Hrs. unfold var_lists.
-  rewrite (f1_build_variable_lists f l wb rs Hf Hl Hrs), Hrs.
-  destruct rs; reflexivity.
+  intros f l wb rs HT Hf Hl Hrs. unfold var_lists. rewrite Hrs.
+  assert (B : build_variable_lists fb f l wb =
+              Some (map (fun r => map (fun t => gvar fb t f l) (trials_of fb f (fst r) (snd r))) rs)).
+  { unfold build_variable_lists. rewrite f1_first_var, Hrs by assumption.
+    pose proof (f1_ranges_pos wb rs HT Hrs) as P. rewrite Forall_forall in P.
+    destruct (is_complex fb f) eqn:Ec; cbv beta iota; f_equal; apply map_ext_in; intros r Hr.
+    - apply f1_complex_range_vars; [apply f1_act_lt; exact Hf|exact Ec|apply P; exact Hr].
+    - rewrite f1_simple_range_vars by assumption. rewrite trials_of_simple by assumption. reflexivity. }
+  destruct rs; [reflexivity|]. rewrite B. reflexivity.
 Qed.
 
 (** the whole-sequence case ([within_block = None]) *)
-Lemma f1_var_lists_none : forall f l, isact fb f = true -> l < nlevels fb f ->
+Lemma f1_var_lists_none : forall f l, 0 < T fb -> isact fb f = true -> l < nlevels fb f ->
   var_lists fb f l None =
-  COk (if 0 <? T fb then [map (fun t => gvar fb t f l) (seq 0 (T fb))] else []).
+  COk [map (fun t => gvar fb t f l) (trials_of fb f 0 (T fb))].
 Proof.
-  intros f l Hf Hl. rewrite (f1_var_lists f l None _ Hf Hl (f1_ranges_none fb)).
-  destruct (0 <? T fb); cbn [map fst snd]; [rewrite Nat.sub_0_r|]; reflexivity.
+  intros f l HT Hf Hl. rewrite (f1_var_lists f l None _ HT Hf Hl (f1_ranges_none fb)).
+  replace (0 <? T fb) with true by (symmetry; now apply Nat.ltb_lt). reflexivity.
 Qed.
 
-(** ** Consistency *)
+(** ** Consistency: per trial the grid factors, then per complex factor its trials *)
 Definition cons_row (t f : nat) : req :=
   (Card.EQ, 1%Z, map (fun l => Z.of_nat (gvar fb t f l)) (seq 0 (nlevels fb f))).
 
-Definition cons_grid (t0 n : nat) : list req :=
-  flat_map (fun t => map (cons_row t) (fl_act fb)) (seq t0 n).
+Definition cons_all : list req :=
+  flat_map (fun t => map (cons_row t) (filter (sact fb) (seq 0 (nf fb)))) (seq 0 (T fb)) ++
+  flat_map (fun f => map (fun t => cons_row t f) (trials_of fb f 0 (T fb))) (filter (cact fb) (seq 0 (nf fb))).
 
-(* [cons_factors] over a suffix of the act list, starting at the offset of its
-   first candidate factor *)
+Definition cons_grid (t0 n : nat) : list req :=
+  flat_map (fun t => map (cons_row t) (filter (sact fb) (seq 0 (nf fb)))) (seq t0 n).
+
 Lemma f1_cons_factors : forall t n s,
-  cons_factors fb (filter (isact fb) (seq s n)) (1 + Z.of_nat (t * vpt fb + off fb s))%Z
-  = (map (cons_row t) (filter (isact fb) (seq s n)), (1 + Z.of_nat (t * vpt fb + off fb (s + n)))%Z).
+  cons_factors fb (filter (sact fb) (seq s n)) (1 + Z.of_nat (t * vpt fb + off fb s))%Z
+  = (map (cons_row t) (filter (sact fb) (seq s n)), (1 + Z.of_nat (t * vpt fb + off fb (s + n)))%Z).
 Proof.
   intros t. induction n as [|n IH]; intros s.
   - cbn [seq filter cons_factors map]. rewrite Nat.add_0_r. reflexivity.
   - cbn [seq filter]. replace (s + S n) with (S s + n) by lia.
-    destruct (isact fb s) eqn:Es.
+    destruct (sact fb s) eqn:Es.
     + cbn [cons_factors map].
       replace (1 + Z.of_nat (t * vpt fb + off fb s) + zn (nlevels fb s))%Z
         with (1 + Z.of_nat (t * vpt fb + off fb (S s)))%Z
         by (rewrite off_S, (anl_act fb s Es); unfold zn; lia).
       rewrite IH. f_equal. f_equal.
-      unfold cons_row. f_equal. rewrite zrange_map. apply map_ext. intros i. unfold gvar. lia.
+      unfold cons_row. f_equal. rewrite zrange_map. apply map_ext. intros i.
+      rewrite gvar_simple by (apply sact_isact; exact Es). lia.
     + replace (off fb s) with (off fb (S s)) by (rewrite off_S, (anl_nact fb s Es); lia).
       apply IH.
 Qed.
 
 Lemma f1_cons_factors_act : forall t,
-  cons_factors fb (fl_act fb) (1 + Z.of_nat (t * vpt fb))%Z
-  = (map (cons_row t) (fl_act fb), (1 + Z.of_nat (S t * vpt fb))%Z).
+  cons_factors fb (simple_act fb) (1 + Z.of_nat (t * vpt fb))%Z
+  = (map (cons_row t) (filter (sact fb) (seq 0 (nf fb))), (1 + Z.of_nat (S t * vpt fb))%Z).
 Proof.
-  intros t. rewrite (f1_act_sorted fb FF).
+  intros t. rewrite f1_simple_act.
   replace (1 + Z.of_nat (t * vpt fb))%Z with (1 + Z.of_nat (t * vpt fb + off fb 0))%Z
     by (rewrite off_0; lia).
   rewrite f1_cons_factors. cbn [Nat.add]. rewrite <- f1_vpt.
@@ -547,50 +974,46 @@ Lemma f1_cons_trials : forall n t,
 Proof.
   induction n as [|n IH]; intros t.
   - cbn [cons_trials]. unfold cons_grid. cbn [seq flat_map]. rewrite Nat.add_0_r. reflexivity.
-  - cbn [cons_trials]. rewrite f1_simple_act, f1_cons_factors_act.
+  - cbn [cons_trials]. rewrite f1_cons_factors_act.
     rewrite IH. unfold cons_grid. cbn [seq flat_map].
     replace (S t + n) with (t + S n) by lia. reflexivity.
 Qed.
 
-Lemma f1_cons_trials_all :
-  cons_trials fb (T fb) 1%Z =
-  (flat_map (fun t => map (fun f => (Card.EQ, 1%Z,
-                                     map (fun l => Z.of_nat (gvar fb t f l)) (seq 0 (nlevels fb f))))
-                          (fl_act fb))
-            (seq 0 (T fb)),
-   (1 + Z.of_nat (T fb * vpt fb))%Z).
+Lemma f1_cons_complex : forall n s,
+  cons_complex fb (filter (cact fb) (seq s n)) (1 + Z.of_nat (GN fb + coff fb s))%Z
+  = flat_map (fun f => map (fun t => cons_row t f) (trials_of fb f 0 (T fb))) (filter (cact fb) (seq s n)).
 Proof.
-  change (cons_trials fb (T fb) 1%Z = (cons_grid 0 (T fb), (1 + Z.of_nat (T fb * vpt fb))%Z)).
-  pose proof (f1_cons_trials (T fb) 0) as H. cbn [Nat.mul Nat.add Z.of_nat Z.add] in H. exact H.
+  induction n as [|n IH]; intros s; [reflexivity|].
+  cbn [seq filter]. destruct (cact fb s) eqn:Es.
+  - cbn [cons_complex flat_map]. cbv zeta. rewrite f1_vff.
+    replace (1 + Z.of_nat (GN fb + coff fb s) + zn (napp fb s * nlevels fb s))%Z
+      with (1 + Z.of_nat (GN fb + coff fb (S s)))%Z
+      by (rewrite coff_S, (cnl_act s Es); unfold zn; lia).
+    rewrite IH. f_equal.
+    destruct (cact_isact s Es) as [Hi Hc].
+    pose proof (f1_nlevels_pos s (f1_act_lt s Hi)) as NL.
+    rewrite zrange_length, chunk_zrange by nia.
+    rewrite map_map.
+    transitivity (map (fun k => (Card.EQ, 1%Z,
+                                 map (fun l => Z.of_nat (GN fb + coff fb s + k * nlevels fb s + l + 1))
+                                     (seq 0 (nlevels fb s))))
+                      (map (prev fb s) (trials_of fb s 0 (T fb)))).
+    + rewrite (trials_of_prev fb s 0 (T fb)) by lia. rewrite prev_0, Nat.sub_0_r. unfold napp.
+      apply map_ext. intros k. f_equal. rewrite zrange_map. apply map_ext. intros l. lia.
+    + rewrite map_map. apply map_ext. intros t. unfold cons_row. f_equal. apply map_ext. intros l.
+      rewrite gvar_complex by exact Hc. reflexivity.
+  - replace (coff fb s) with (coff fb (S s)) by (rewrite coff_S, (cnl_nact s Es); lia).
+    apply IH.
 Qed.
 
 Lemma f1_consistency : forall fresh,
-  apply_consistency fb fresh =
-  COk {| ct_fresh := fresh; ct_clauses := [];
-         ct_requests :=
-           flat_map (fun t => map (fun f => (Card.EQ, 1%Z,
-                                             map (fun l => Z.of_nat (gvar fb t f l)) (seq 0 (nlevels fb f))))
-                                  (fl_act fb))
-                    (seq 0 (T fb)) |}.
+  apply_consistency fb fresh = COk {| ct_fresh := fresh; ct_clauses := []; ct_requests := cons_all |}.
 Proof.
-  intros fresh. unfold apply_consistency. rewrite f1_cons_trials_all, f1_complex_act.
-  cbn [cons_complex]. rewrite app_nil_r. reflexivity.
-Qed.
-
-(** ** Preambles *)
-Lemma f1_post_preamble : fl_alignment fb = PostPreamble -> post_preamble_size fb = 0.
-Proof.
-  intros Ea. unfold post_preamble_size. rewrite (f1_align_pre fb FF Ea), fold_max_zero; [reflexivity|].
-  apply (f1_preambles fb FF).
-Qed.
-
-Lemma f1_preamble : forall i, preamble_size fb i = 0.
-Proof.
-  intros i. unfold preamble_size.
-  assert (N : nth i (fl_preambles fb) 0 = 0).
-  { destruct (nth_in_or_default i (fl_preambles fb) 0) as [H|H]; [|exact H].
-    apply (f1_preambles fb FF). exact H. }
-  destruct (fl_alignment fb) eqn:Ea; [now apply f1_post_preamble|exact N|exact N].
+  intros fresh. unfold apply_consistency.
+  assert (H : cons_trials fb (T fb) 1%Z = (cons_grid 0 (T fb), (1 + Z.of_nat (GN fb + coff fb 0))%Z)).
+  { pose proof (f1_cons_trials (T fb) 0) as H. rewrite coff_0. unfold GN.
+    replace (T fb * vpt fb + 0) with ((0 + T fb) * vpt fb) by lia. exact H. }
+  rewrite H, f1_complex_act, f1_cons_complex. reflexivity.
 Qed.
 
 End F1.
